@@ -34,6 +34,34 @@ def gen_tree(rng, k):
     return tree
 
 
+def ranges(ns):
+    out = []
+    for n in sorted(ns):
+        if out and out[-1][1] == n - 1:
+            out[-1][1] = n
+        else:
+            out.append([n, n])
+    return out
+
+
+def merge_shards(rs):
+    """Results of the jobs that enumerated the residue classes of one directory."""
+    sizes = sorted({r["size"] for r in rs})
+    first = [r for r in rs if r["first_shard"]][0]
+    m = dict(first)
+    m["sizes"] = sizes
+    m["tested"] = sum(r["tested"] for r in rs)
+    m["secs"] = max(r["secs"] for r in rs)
+    m["prefix_fail"] = {c: sorted(n for r in rs for n in r["prefix_fail_ranges"][c]) for c in ("empty", "wrong")}
+    m["prefix_fail_counts"] = {c: len(v) for c, v in m["prefix_fail"].items()}
+    m["prefix_fail_ranges"] = {c: ranges(v) for c, v in m["prefix_fail"].items()}
+    m["not_restored"] = ranges(n for r in rs for n in r["not_restored"])
+    m["followups"] = [f for r in rs for f in r["followups"]]
+    m["followup_bad"] = [f for r in rs for f in r["followup_bad"]]
+    m["examples"] = sorted((e for r in rs for e in r["examples"]), key=lambda e: e["length"])[:8]
+    return m
+
+
 def dir_job(rng, k, tier):
     keys = [x[0] for x in c10.PROTOKEYS]
     return {"op": "c11_dir", "tree": gen_tree(rng, k), "protokeys": c10.protokeys(), "writer_key": rng.choice(keys),
@@ -42,7 +70,7 @@ def dir_job(rng, k, tier):
             "hole_step": 1 if tier == "thorough" else 3}
 
 
-def zip_job(rng, activated):
+def zip_job(rng, activated, tier="quick"):
     buf = io.BytesIO()
     with zipfile.ZipFile(buf, "w") as z:
         z.writestr(zipfile.ZipInfo("a.txt", (2020, 1, 2, 3, 4, 6)), "hello a\n")
@@ -60,7 +88,7 @@ def zip_job(rng, activated):
             "config": {"handlers.ZIP.ZIPHandler": {"enabled": "true"},
                        "handlers.HandlerMultiplexer": {"handlers": FULL_HANDLERS}},
             "zipname": "z.zip", "sels": sels, "protokeys": pk, "proto_seq": [rng.choice(keys) for _ in range(53)],
-            "activated": activated}
+            "activated": activated, "activated_stride": 1 if tier == "thorough" else 9}
 
 
 def coq_cases(res, rep):
@@ -78,10 +106,16 @@ def coq_cases(res, rep):
     for c in classes:
         obs = {"ok": "([0], 1)", "empty": "([], 2)", "wrong": "([], 1)"}[c]
         cases.append("(%s, [KList 3; KTick 40%%Z; KDamage; KTick 5%%Z; KList 1], [([0], 1); %s])" % (hdr, obs))
-    # after the faulty request the file is a complete fresh entry again: the next request is a hit
-    restored = not res["not_restored"] and not res["followup_bad"]
-    cases.append("(%s, [KList 3; KTick 40%%Z; KDamage; KTick 5%%Z; KList 1; KTick 3%%Z; KList 7], [([0], 1); ([0], 1); %s])"
-                 % (hdr, "([0], 0)" if restored else "([], 2)"))
+    # the request after the faulty one: under the repaired code a hit on the rewritten file
+    seen = set()
+    for n, c1, c2, rewrote in res["followups"]:
+        if (c1, c2, rewrote) in seen:
+            continue
+        seen.add((c1, c2, rewrote))
+        o1 = {"ok": "([0], 1)", "empty": "([], 2)", "wrong": "([], 1)"}[c1]
+        o2 = {"ok": "([0], %d)" % (1 if rewrote else 0), "empty": "([], 2)", "wrong": "([], 0)"}[c2]
+        cases.append("(%s, [KList 3; KTick 40%%Z; KDamage; KTick 5%%Z; KList 1; KTick 3%%Z; KList 7], [([0], 1); %s; %s])"
+                     % (hdr, o1, o2))
     return cases
 
 
@@ -89,18 +123,30 @@ def run(tier):
     chk = Check("C11", tier)
     chk.proofs(extra_files=["Corr/K10.v"])
     rng = chk.rng
-    ndirs = 10 if tier == "thorough" else 3
-    jobs = [dir_job(rng, k, tier) for k in range(ndirs)]
-    jobs.append(zip_job(rng, activated=True))
-    res = impl_run_parallel(jobs, chunks=len(jobs))
-    for r in res:
+    ndirs = 10 if tier == "thorough" else 2
+    S = 3 if tier == "thorough" else 6
+    base = [dir_job(rng, k, tier) for k in range(ndirs)]
+    shard_jobs = [dict(j, mod=[S, r]) for j in base for r in range(S)]
+    zj = zip_job(rng, activated=True, tier=tier)
+    raw = impl_run_parallel(shard_jobs + [zj], chunks=len(shard_jobs) + 1)
+    for r in raw:
         if not r["ok"]:
             raise RuntimeError(r["err"] + "\n" + r.get("tb", ""))
+    jobs, res = [], []
+    for k, j in enumerate(base):
+        m = merge_shards([raw[k * S + r]["res"] for r in range(S)])
+        if len(m["sizes"]) != 1:
+            # the scratch worlds produced cache files of different sizes: enumerate this directory in one world
+            m = merge_shards([impl_run([dict(j, mod=[1, 0])])[0]["res"]])
+        jobs.append(j)
+        res.append({"ok": True, "res": m})
+    jobs.append(zj)
+    res.append(raw[-1])
     found = False
     cases_rep, cases_pin = [], []
     per_dir = []
     codec_bad = []
-    holes_total = {"tried": 0, "accepted": 0, "accepted_and_different": 0, "examples": []}
+    holes_total = {"tried": 0, "accepted": 0, "accepted_and_different": 0, "memory_errors": 0, "examples": []}
     for job, r in zip(jobs[:-1], res[:-1]):
         d = r["res"]
         size = d["size"]
